@@ -114,13 +114,49 @@ def interp(facts, stubs=()):
 
 # ------------------------------------------------------------------ verify_claims
 EXPECT = ["aud", "exp"]
-VALID = ["exp", "nbf", "jti"]     # exp: validator and expectation; nbf, jti: validators without expectation (two of them: a pass that stops after the first is seen)
+VALID = VALID_ALL = ["exp", "nbf", "jti"]     # exp: validator and expectation; nbf, jti: validators without expectation (two of them: a pass that stops after the first is seen)
 KA, KC = "aud", "exp"      # KA: expected without validator; KC: expected and validator
 
 
-def parser_value(st):
-    claims = MI.mapv("claims", [(A.StrV(k), A.Sym("expected_%s" % k, attrs={"expected_of": k})) for k in EXPECT])
-    vals = MI.mapv("claim_validators", [(A.StrV(k), A.Sym("validator_%s" % k, attrs={"validator": "V_%s" % k})) for k in VALID])
+def configs():
+    """the parser configurations the behaviour table is read off: the full one first, then every other choice of expected claims and
+    validators (a pass guarded by a comparison of the two tables' sizes, or by one of them being empty, shows in one of them)"""
+    out = [(tuple(EXPECT), tuple(VALID))]
+    for em in range(1 << len(EXPECT)):
+        for vm in range(1 << len(VALID)):
+            c = (tuple(k for i, k in enumerate(EXPECT) if em >> i & 1), tuple(k for i, k in enumerate(VALID) if vm >> i & 1))
+            if c not in out:
+                out.append(c)
+    return out
+
+
+def merge(per_cfg):
+    """one finding per rule over all configurations: violated in any -> that finding; undecided in any -> undecided; else the first"""
+    by = {}
+    order = []
+    for cfg, fs in per_cfg:
+        for f in fs:
+            key = (f.rule, f.where)
+            if key not in by:
+                by[key] = []
+                order.append(key)
+            by[key].append((cfg, f))
+    out = []
+    for key in order:
+        xs = by[key]
+        bad = [x for x in xs if x[1].ok is False]
+        und = [x for x in xs if x[1].ok is None]
+        cfg, f = (bad or und or xs)[0]
+        if (bad or und) and cfg != (tuple(EXPECT), tuple(VALID)):
+            f.msg = "with expected claims %s and validators %s registered: %s" % (list(cfg[0]), list(cfg[1]), f.msg)
+        out.append(f)
+    return out
+
+
+def parser_value(st, cfg=None):
+    expect, valid = cfg or (EXPECT, VALID)
+    claims = MI.mapv("claims", [(A.StrV(k), A.Sym("expected_%s" % k, attrs={"expected_of": k})) for k in expect])
+    vals = MI.mapv("claim_validators", [(A.StrV(k), A.Sym("validator_%s" % k, attrs={"validator": "V_%s" % k})) for k in valid])
     foot = A.Struct("crate::core::footer::Footer", None, {"0": A.Seq("self.footer", A.Aff.sym("len(self.footer)"), kind="str")})
     ia = A.Struct("crate::core::implicit_assertion::ImplicitAssertion", None, {"0": A.Seq("self.assertion", A.Aff.sym("len(self.assertion)"), kind="str")})
     return A.Struct("crate::generic::parsers::generic_parser::GenericParser", None, {"version": A.UNIT, "purpose": A.UNIT, "claims": claims, "claim_validators": vals, "footer": foot, "implicit_assertion": ia})
@@ -137,8 +173,9 @@ def _err_variant(I, o, r):
     return getattr(e, "name", repr(e)), e
 
 
-def _table(I, outs, T, bid, line, file, label=""):
+def _table(I, outs, T, bid, line, file, label="", cfg=None):
     """the behaviour table read off the outcomes of a run in which the authenticated text is called T"""
+    EXPECT_, VALID = cfg or (EXPECT, VALID_ALL)
     out = []
     jn = lambda k: "json(%s)[%s]" % (T, k)
     n_ok = 0
@@ -176,10 +213,12 @@ def _table(I, outs, T, bid, line, file, label=""):
                 if e[2] != k or (e[3] != jn(k) and not null_here):
                     probs["C16.R2"].append("validator %s is called with (%r, %s) instead of (%r, &json[%r])" % (name, e[2], e[3], k, k))
         failed = [c[:-6] for c in s.cond if c.endswith(" fails") and c.startswith("V_")]
-        cls_a = s.facts.get(("cls", jn(KA)))
-        a_null = cls_a is not None and cls_a <= frozenset(["Null"])
-        a_nonnull = cls_a is not None and "Null" not in cls_a
-        eq_a = s.facts.get(("jsoneq",) + tuple(sorted(("expected(%s)[%s]" % (KA, KA), jn(KA)))))
+        plain = [k for k in EXPECT_ if k not in VALID]     # expected claims without validator: decided by presence and JSON equality
+
+        def st_of(k):
+            cls = s.facts.get(("cls", jn(k)))
+            return (cls is not None and cls <= frozenset(["Null"]), cls is not None and "Null" not in cls,
+                    s.facts.get(("jsoneq",) + tuple(sorted(("expected(%s)[%s]" % (k, k), jn(k))))))
         if is_ok:
             n_ok += 1
             okv = MD.deref(I, s, r.fields.get("0"))
@@ -190,10 +229,12 @@ def _table(I, outs, T, bid, line, file, label=""):
                     probs["C16.R4"].append("the parse succeeds although validator V_%s ran %d times (must run exactly once) when [%s]" % (k, len(per.get("V_" + k, [])), cond[-200:]))
             if failed:
                 probs["C16.R3"].append("the parse succeeds although %s returned an error" % failed)
-            if not a_nonnull:
-                probs["C15.R2"].append("the parse succeeds although the expected claim 'aud' may be absent (null) when [%s]" % cond[-200:])
-            if eq_a is not True:
-                probs["C15.R2"].append("the parse succeeds without the payload's 'aud' having been found JSON-equal to the expectation when [%s]" % cond[-200:])
+            for k in plain:
+                _null, nonnull, eq = st_of(k)
+                if not nonnull:
+                    probs["C15.R2"].append("the parse succeeds although the expected claim %r may be absent (null) when [%s]" % (k, cond[-200:]))
+                if eq is not True:
+                    probs["C15.R2"].append("the parse succeeds without the payload's %r having been found JSON-equal to the expectation when [%s]" % (k, cond[-200:]))
         else:
             var, ev = _err_variant(I, o, r)
             cause = None
@@ -203,19 +244,19 @@ def _table(I, outs, T, bid, line, file, label=""):
                     pass
             elif any(c.startswith("to_value(expected") and c.endswith("fails") for c in s.cond):
                 cause = "serialisation"
-            elif a_null and var == "Missing":
+            elif any(st_of(k)[0] for k in plain) and var == "Missing":
                 cause = "missing"
-            elif a_nonnull and eq_a is False:
+            elif any(st_of(k)[1] and st_of(k)[2] is False for k in plain):
                 cause = "unequal"
             if cause is None:
                 # which key is blamed?
                 blame = ""
-                if any(("cls", jn(k)) in s.facts and not s.facts.get(("lookup_refined", jn(k))) for k in VALID) or any(isinstance(kf, tuple) and kf[0] == "jsoneq" and "(%s)" % KC in str(kf) for kf in s.facts):
+                if any(("cls", jn(k)) in s.facts and not s.facts.get(("lookup_refined", jn(k))) for k in VALID) or any(isinstance(kf, tuple) and kf[0] == "jsoneq" and any("(%s)" % k in str(kf) for k in VALID) for kf in s.facts):
                     blame = " (a claim that has a validator is also subjected to a presence / equality test)"
                     probs["C16.R6"].append("the parse fails with %s for a reason other than a validator's verdict%s when [%s]" % (var, blame, cond[-200:]))
                 else:
                     probs["C15.R2"].append("the parse fails with %s without a missing / unequal expected claim or a failing validator when [%s]" % (var, cond[-200:]))
-            if a_null and not failed and cause == "missing" and var != "Missing":
+            if any(st_of(k)[0] for k in plain) and not failed and not any(st_of(k)[1] and st_of(k)[2] is False for k in plain) and cause is None and var != "Missing":
                 probs["C15.R2"].append("a missing expected claim is reported as %s" % var)
     # a claim with validator must not be tested otherwise: no path may have refined json[c] / json[b] by a null or equality test
     for o in outs:
@@ -255,18 +296,23 @@ def verify_claims_table(facts, entries=None):
     b = bs[0]
     v = M.view(facts, b)
     file, line, bid = v.file(), b["line"], b["id"]
-    I = interp(facts)
-    st = A.State()
-    me = st.new_cell(parser_value(st))
-    outs = I.run(b, [A.Ptr(me), A.Seq("token", A.Aff.sym("len(token)"), kind="str")], st)
-    undecided = [o for o in outs if o.kind != "return" or o.state.unmodelled or any("undecided" in n for n in o.state.notes)]
-    if undecided or not outs:
-        o = undecided[0] if undecided else None
-        why = "no outcome" if o is None else "%s; unmodelled %s; notes %s; when [%s]" % (o.kind if o.kind != "return" else "return", o.state.unmodelled[:2], [n for n in o.state.notes if "undecided" in n][:1], " & ".join(o.state.cond)[-200:])
-        for r in ("C15.R1", "C15.R2", "C16.R2", "C16.R3", "C16.R4", "C16.R6", "C14.R4"):
-            _f(out, r, None, bid, "verify_claims not decided by the abstract interpreter", why, line, file)
-        return out
-    return _table(I, outs, "token", bid, line, file)
+    per = []
+    for cfg in configs():
+        out = []
+        I = interp(facts)
+        st = A.State()
+        me = st.new_cell(parser_value(st, cfg))
+        outs = I.run(b, [A.Ptr(me), A.Seq("token", A.Aff.sym("len(token)"), kind="str")], st)
+        undecided = [o for o in outs if o.kind != "return" or o.state.unmodelled or any("undecided" in n for n in o.state.notes)]
+        if undecided or not outs:
+            o = undecided[0] if undecided else None
+            why = "no outcome" if o is None else "%s; unmodelled %s; notes %s; when [%s]" % (o.kind if o.kind != "return" else "return", o.state.unmodelled[:2], [n for n in o.state.notes if "undecided" in n][:1], " & ".join(o.state.cond)[-200:])
+            for r in ("C15.R1", "C15.R2", "C16.R2", "C16.R3", "C16.R4", "C16.R6", "C14.R4"):
+                _f(out, r, None, bid, "verify_claims not decided by the abstract interpreter", why, line, file)
+        else:
+            out = _table(I, outs, "token", bid, line, file, cfg=cfg)
+        per.append((cfg, out))
+    return merge(per)
 
 
 # ------------------------------------------------------------------ the eight parse methods: claims only after authentication
@@ -276,6 +322,8 @@ def _core_stub(I, st, args):
 
 
 _pl = {}
+# the configurations the whole parse methods are interpreted on (the full one, and ones in which a table is empty or smaller than the other)
+PARSE_CONFIGS = [(("aud", "exp"), ("exp", "nbf", "jti")), (("aud",), ("exp",)), (("aud", "exp"), ("jti",)), ((), ("nbf",)), (("aud",), ())]
 
 
 def parse_level(facts, entries):
@@ -290,42 +338,50 @@ def parse_level(facts, entries):
         b = e.body
         v = M.view(facts, b)
         bid, file, line = e.id, v.file(), b["line"]
-        I = interp(facts, stubs=[(re.compile(r"paseto::Paseto<.*>>::(try_decrypt|try_verify)$"), _core_stub)])
-        st = A.State()
-        me = st.new_cell(parser_value(st))
-        outs = I.run(b, [A.Ptr(me), A.Seq("token", A.Aff.sym("len(token)"), kind="str"), A.Ptr(st.new_cell(A.Sym("key")))], st)
-        und = [o for o in outs if o.kind != "return" or o.state.unmodelled or any("undecided" in n for n in o.state.notes)]
-        if und or not outs:
-            o = und[0] if und else None
-            why = "no outcome" if o is None else "%s %s %s" % (o.kind, o.state.unmodelled[:2], [n for n in o.state.notes if "undecided" in n][:1])
-            _f(contracts, "C03.R6", None, bid, "parse not decided by the abstract interpreter", why, line, file)
-            for r in ("C15.R1", "C15.R2", "C16.R2", "C16.R3", "C16.R4", "C16.R6", "C14.R4"):
-                _f(table, r, None, bid, "parse not decided by the abstract interpreter", why, line, file)
-            continue
-        probs = []
-        authed = []
-        for o in outs:
-            s = o.state
-            core = [x for x in s.events if x[0] == "core_call"]
-            if len(core) != 1:
-                probs.append("the authenticating core call is made %d times on a path" % len(core))
+        per = []
+        for ci, cfg in enumerate(PARSE_CONFIGS):
+            tbl, ctr = [], []
+            I = interp(facts, stubs=[(re.compile(r"paseto::Paseto<.*>>::(try_decrypt|try_verify)$"), _core_stub)])
+            st = A.State()
+            me = st.new_cell(parser_value(st, cfg))
+            outs = I.run(b, [A.Ptr(me), A.Seq("token", A.Aff.sym("len(token)"), kind="str"), A.Ptr(st.new_cell(A.Sym("key")))], st)
+            und = [o for o in outs if o.kind != "return" or o.state.unmodelled or any("undecided" in n for n in o.state.notes)]
+            if und or not outs:
+                o = und[0] if und else None
+                why = "no outcome" if o is None else "%s %s %s" % (o.kind, o.state.unmodelled[:2], [n for n in o.state.notes if "undecided" in n][:1])
+                _f(ctr, "C03.R6", None, bid, "parse not decided by the abstract interpreter", why, line, file)
+                for r in ("C15.R1", "C15.R2", "C16.R2", "C16.R3", "C16.R4", "C16.R6", "C14.R4"):
+                    _f(tbl, r, None, bid, "parse not decided by the abstract interpreter", why, line, file)
+                per.append((cfg, tbl, ctr))
                 continue
-            a = core[0][1]
-            want = ["token", None, "self.footer"] + (["self.assertion"] if e.vp[0] in ("V3", "V4") else [])
-            if [a[0], None] + a[2:] != want or "key" not in a[1]:
-                probs.append("the core call receives %s instead of (token, key, self.footer%s)" % (a, ", self.implicit_assertion" if len(want) > 3 else ""))
-            if "core_result is Ok" in s.cond:
-                authed.append(o)
-                continue
-            touched = [x for x in s.events if x[0] == "validator"] or [c for c in s.cond if "json(" in c or c.startswith("to_value(expected")]
-            r = I.resolve(s, o.value)
-            if touched:
-                probs.append("claims are examined although the core call did not succeed (%s)" % (touched[:2],))
-            if isinstance(r, A.Struct) and r.variant == "Ok":
-                probs.append("Ok is returned although the core call did not succeed")
-        _f(contracts, "C03.R6", not probs, bid, "claims only after authentication" if not probs else probs[0][:80], "; ".join(sorted(set(probs)))[:500], line, file,
-           desc="%s: core call with (token, key, self.footer, ..); the payload is examined only on its Ok value" % e.label)
-        table += _table(I, authed, "plaintext", bid, line, file, label=e.label)
+            probs = []
+            authed = []
+            for o in outs:
+                s = o.state
+                core = [x for x in s.events if x[0] == "core_call"]
+                if len(core) != 1:
+                    probs.append("the authenticating core call is made %d times on a path" % len(core))
+                    continue
+                a = core[0][1]
+                want = ["token", None, "self.footer"] + (["self.assertion"] if e.vp[0] in ("V3", "V4") else [])
+                if [a[0], None] + a[2:] != want or "key" not in a[1]:
+                    probs.append("the core call receives %s instead of (token, key, self.footer%s)" % (a, ", self.implicit_assertion" if len(want) > 3 else ""))
+                if "core_result is Ok" in s.cond:
+                    authed.append(o)
+                    continue
+                touched = [x for x in s.events if x[0] == "validator"] or [c for c in s.cond if "json(" in c or c.startswith("to_value(expected")]
+                r = I.resolve(s, o.value)
+                if touched:
+                    probs.append("claims are examined although the core call did not succeed (%s)" % (touched[:2],))
+                if isinstance(r, A.Struct) and r.variant == "Ok":
+                    probs.append("Ok is returned although the core call did not succeed")
+            _f(ctr, "C03.R6", not probs, bid, "claims only after authentication" if not probs else probs[0][:80], "; ".join(sorted(set(probs)))[:500], line, file,
+               desc="%s: core call with (token, key, self.footer, ..); the payload is examined only on its Ok value" % e.label)
+            tbl += _table(I, authed, "plaintext", bid, line, file, label=e.label, cfg=cfg)
+            per.append((cfg, tbl, ctr))
+        table += merge([(c, t) for c, t, _x in per])
+        contracts += merge([(c, x) for c, _t, x in per])
+
     _pl[k] = (table, contracts)
     return _pl[k]
 
